@@ -113,6 +113,30 @@ def boundary_sums(F, rng):
     return [s for s in out if 0 <= s <= 2 * p - 2]
 
 
+def cascade_sums(F, rng):
+    """sums s = a + b (0 <= s <= 2p-2) laid out against the word-wise compare-with-p cascade of the modular add / double routines: the top j
+    words equal p's, the deciding word differs from p's word there in every way that matters to a comparison (one above / below, 0, all-ones,
+    sign bit set / clear / flipped - a signed compare goes wrong there), the words below are random, zero or all-ones; for 64- and 32-bit words"""
+    p = F.p
+    out = []
+    for w in (64, 32):
+        n = (F.bits + w - 1) // w
+        pw = [(p >> (w * i)) & ((1 << w) - 1) for i in range(n)]
+        for j in range(n):
+            d = n - 1 - j                       # index of the deciding word
+            cands = {pw[d] + 1, pw[d] - 1, 0, (1 << w) - 1, 1 << (w - 1), (1 << (w - 1)) - 1, pw[d] ^ (1 << (w - 1)), (pw[d] | (1 << (w - 1))), rng.getrandbits(w)}
+            for dv in cands:
+                if dv < 0 or dv >> w or dv == pw[d]:
+                    continue
+                low = rng.choice([0, (1 << (w * d)) - 1, rng.getrandbits(w * d) if d else 0, rng.getrandbits(w * d) if d else 0])
+                s_ = sum(pw[i] << (w * i) for i in range(d + 1, n)) | (dv << (w * d)) | low
+                if 0 <= s_ <= 2 * p - 2:
+                    out.append(s_)
+                    if s_ % 2:
+                        out.append(s_ ^ 1)      # an even neighbour, for the doubling routine
+    return out
+
+
 def split_sum(F, s, rng):
     lo = max(0, s - (F.p - 1))
     hi = min(F.p - 1, s)
@@ -137,7 +161,7 @@ def gen_directed(g, F, rng):
     T = F.tok
     sp = specials(F)
     # add / dbl boundaries
-    for s in boundary_sums(F, rng):
+    for s in boundary_sums(F, rng) + cascade_sums(F, rng):
         for _ in range(2):
             a, b = split_sum(F, s, rng)
             g.add('%s.add %s %s' % (n, T(a), T(b)), 'add', F, a, b)
